@@ -159,11 +159,44 @@ func vCheckColours(coloured string, format string, exact bool) string {
 				fields = vGroups(m, 1)
 			}
 		}
+		if _, ok := c15TinyLine(ln); ok && format == "summary" {
+			continue // (which of its figures the summary prints for an element is not this rule's business)
+		}
+		if sgn, ok := c15TinyLine(ln); ok && len(fields) > 0 {
+			// a food logged with an amount that is not zero but prints as 0.00: the colour follows the amount, not its text
+			want := []int{map[bool]int{true: 31, false: 32}[sgn > 0]}
+			if len(fields) == 3 {
+				want = []int{0, 0, want[0]}
+				if sgn > 0 {
+					want[0] = 31
+				} else {
+					want[1] = 32
+				}
+			}
+			for i, f := range fields {
+				if i < len(want) && f[1] > f[0] && lcol[f[1]-1] != want[i] {
+					return fmt.Sprintf("amount %q of a food logged with a %s quantity below half a cent carries colour code %d, expected %d in line %q", ln[f[0]:f[1]], map[bool]string{true: "positive", false: "negative"}[sgn > 0], lcol[f[1]-1], want[i], ln)
+				}
+			}
+			continue
+		}
 		if msg := vColourRule(ln, lcol, fields, exact); msg != "" {
 			return msg + " in line " + fmt.Sprintf("%q", ln)
 		}
 	}
 	return ""
+}
+
+// c15TinySign: the sign of the quantity of each "speck~" food of the case at hand (set by checkC15).
+var c15TinySign = map[string]int{}
+
+func c15TinyLine(ln string) (int, bool) {
+	for nm, sgn := range c15TinySign {
+		if strings.Contains(ln, nm) {
+			return sgn, true
+		}
+	}
+	return 0, false
 }
 
 var c15Templates = []struct {
@@ -222,6 +255,14 @@ func c15SplitDays(out string, dates map[string]bool) [][]string {
 }
 
 func checkC15(c c15Case, ctx *vCtx) *vFailure {
+	c15TinySign = map[string]int{}
+	for _, r := range c.S.Log.Recs {
+		for _, l := range r.Lines {
+			if l.Kind == vkEntry && strings.HasPrefix(l.Name, "speck~") {
+				c15TinySign[l.Name] = vRat(l.Num).Sign()
+			}
+		}
+	}
 	f := c.S.Write("c15")
 	fileArgs := func(args ...string) []string {
 		if c.Layout != "" {
@@ -576,6 +617,15 @@ func genC15(t *rapid.T) c15Case {
 		j := rapid.IntRange(0, len(s.Log.Recs)-1).Draw(t, "cday2")
 		s.Log.Recs[i].Lines = append(s.Log.Recs[i].Lines, vLine{Kind: vkEntry, Name: n1, Num: d + rest, L: plain})
 		s.Log.Recs[j].Lines = append(s.Log.Recs[j].Lines, vLine{Kind: vkEntry, Name: n2, Num: rest, L: plain})
+		s.Log.NoFinalNL = false
+	}
+	if len(s.Log.Recs) > 0 && rapid.IntRange(0, 3).Draw(t, "tinyamounts") == 0 {
+		// amounts that are not zero but print as 0.00 (coloured like any other positive or negative amount)
+		plain := vLayout{Indent: "  ", Sep: ": ", EOL: "\n"}
+		i := rapid.IntRange(0, len(s.Log.Recs)-1).Draw(t, "tinyday")
+		for k := rapid.IntRange(1, 2).Draw(t, "tinyn"); k > 0; k-- {
+			s.Log.Recs[i].Lines = append(s.Log.Recs[i].Lines, vLine{Kind: vkEntry, Name: []string{"speck~a", "speck~b"}[k-1], Num: []string{"0.004", "-0.003", "0.0049", "-0.001", "0.000001"}[rapid.IntRange(0, 4).Draw(t, "tinyv")], L: plain})
+		}
 		s.Log.NoFinalNL = false
 	}
 	if layout != "2006-01-02 15:04:05.000" && layout != "2006/01/02 15:04 MST" && len(s.Log.Recs) > 0 && len(s.Days) == len(s.Log.Recs) && rapid.IntRange(0, 9).Draw(t, "zeroday") == 0 {
